@@ -231,9 +231,9 @@ def cast__notation_type(self: XPathConstructor, value: ta.AtomicType) -> Notatio
 
 
 @method('NOTATION')
-def nud__notation_type(self: XPathConstructor) -> None:
+def nud__notation_type(self: XPathConstructor) -> XPathConstructor:
     if not self.parser.parse_arguments:
-        return
+        return self
 
     self.parser.advance('(')
     if self.parser.next_token.symbol == ')':
